@@ -40,7 +40,7 @@ def parse_summary(path):
 
 def run(ctx):
     ctx.level = "proof"
-    status = vlib.proof_status(PID)
+    status = vlib.proof_status(PID, extra_targets=["C19/Extract.v"])
     ctx.proof_gate(status)
     exe = vlib.build_ocaml_driver("c19_driver", os.path.join(vlib.COQ, "extracted"),
                                   os.path.join(ctx.prop_dir, "driver", "c19_driver.ml"), only=["c19_model"])
